@@ -203,3 +203,113 @@ def replay(rep, path):
     d = json.load(open(path))["detail"]
     print(json.dumps(d)[:3000])
     return 0
+
+
+# ---------------------------------------------------------------------------------------------- evo_ape / evo_rpe file pipelines
+RELARG = {"trans": "trans_part", "deg": "angle_deg", "full": "full", "rotpart": "rot_part", "pdist": "point_distance"}
+
+
+def execute_metric(job):
+    import io
+    import zipfile
+    n, c, seed = job
+    q = c["q"]
+    u = 1.0 if q["rel"] == "full" else [1.0, 0.25][(n + seed) % 2]
+    clock = geom.Clock(1.4e9, 0.125) if c["fmt"] == "euroc" else [geom.Clock(0, 1), geom.Clock(0, 0.125), geom.Clock(1.5e9, 0.125)][(n + seed) % 3]
+    d = tempfile.mkdtemp(prefix="pm_", dir=core.workdir())
+    try:
+        if c["fmt"] == "euroc":
+            write_input(os.path.join(d, "gt.csv"), c["ref"], "euroc", u, clock)
+            argv = ["euroc", "gt.csv", "est.txt"]
+        else:
+            write_input(os.path.join(d, "gt.txt"), c["ref"], "tum", u, clock)
+            argv = ["tum", "gt.txt", "est.txt"]
+        write_input(os.path.join(d, "est.txt"), c["est"], "tum", u, clock)
+        argv += ["-r", RELARG[q["rel"]]]
+        if q["down"]:
+            argv += ["--downsample", str(q["down"])]
+        # EuRoC stamps are integer nanoseconds held in a float64 (up to 128 ns off the dyadic grid): keep crop bounds off the stamps there;
+        # for TUM the bound is exactly a stamp (inclusive on both sides)
+        slack = 0.25 * clock.dt if c["fmt"] == "euroc" else 0.0
+        if q["lo"] != -1000:
+            argv += ["--t_start", repr(float(clock.g(q["lo"])) - slack)]
+        if q["hi"] != 1000:
+            argv += ["--t_end", repr(float(clock.g(q["hi"])) + slack)]
+        argv += ["--t_max_diff", repr(0.25 * clock.dt)]
+        if q["off"]:
+            argv += ["--t_offset", repr(q["off"] * clock.dt)]
+        argv += {"none": [], "sim": ["-a", "-s"], "scale": ["-s"], "origin": ["--align_origin"], "scaleorigin": ["-s", "--align_origin"]}[q["mode"]]
+        if q["nalign"]:
+            argv += ["--n_to_align", str(q["nalign"])]
+        if q["plane"] != "none":
+            argv += ["--project_to_plane", q["plane"]]
+        if c["tool"] == "rpe":
+            argv += ["--delta", str(q["delta"]), "--delta_unit", "f"] + (["--all_pairs"] if q["allpairs"] else [])
+        argv += ["--save_results", "out.zip", "--no_warnings"]
+        r = cli.run_cli(c["tool"], argv, d)
+        if r["code"] != 0 or r["exc"] != "none" or not os.path.exists(os.path.join(d, "out.zip")):
+            return {"out": "exit%s %s %s" % (r["code"], r["exc"], r["out"][-160:]), "err": [], "ts": [], "argv": argv}
+        with zipfile.ZipFile(os.path.join(d, "out.zip")) as z:     # independent reader of the archive
+            err = np.load(io.BytesIO(z.read("error_array.npy")))
+            ts = np.load(io.BytesIO(z.read("timestamps.npy")))
+        vals = []
+        for v in err:
+            v = float(v)
+            if q["rel"] == "trans":
+                vals.append(trajexec.sq_units(v, u))
+            elif q["rel"] == "deg":
+                vals.append(int(round(v)) if abs(v - round(v)) < 1e-7 else -1)
+            elif q["rel"] == "pdist":
+                vals.append(int(round(v / u)) if abs(v / u - round(v / u)) < 1e-6 else -1)
+            else:
+                vals.append(int(round(v * v)) if abs(v * v - round(v * v)) < 1e-6 * max(1.0, v * v) else -1)
+        stamps = []
+        for t in ts:
+            k = clock.a(float(t))
+            if k is None and c["fmt"] == "euroc":
+                qk = (float(t) - clock.t0) / clock.dt
+                k = int(round(qk)) if abs(qk - round(qk)) * clock.dt <= 1e-6 else None
+            stamps.append(-99999 if k is None else k)
+        return {"out": "ok", "err": vals, "ts": stamps, "argv": argv}
+    finally:
+        shutil.rmtree(d, ignore_errors=True)
+
+
+def run_metric_pipeline(rep, tier, seed, tool):
+    """shared by c01 (evo_ape) and c02 (evo_rpe): the file pipeline cases of PipelineMetric.tla"""
+    r = core.tlc("pipeline", "PipelineMetric", "MC_pipemetric_%s.cfg" % tier, workers=8)
+    rep.add_tlc(r)
+    cases = [c for c in r.printed_json() if c["tool"] == tool]
+    if len(cases) < 20:
+        raise core.MachineryError("pipeline generator produced %d %s cases" % (len(cases), tool))
+    import evo.main_ape  # noqa: F401
+    import evo.main_rpe  # noqa: F401
+    cli.run_cli(tool, ["--help"], core.workdir())
+    obs = core.pmap(execute_metric, [(n, c, seed) for n, c in enumerate(cases)], chunksize=10)
+    traces = [{"id": "pm%d" % n, "c": c, "o": {k: v for k, v in o.items() if k != "argv"}, "_single": True} for n, (c, o) in enumerate(zip(cases, obs))]
+    g = next((t for t in traces if t["o"]["out"] == "ok" and len(t["o"]["err"]) >= 2), None)
+    if g is None:
+        raise core.MachineryError("no successful %s pipeline run: %s" % (tool, obs[0]))
+    p = copy.deepcopy(g)
+    p["id"] = "probe.pm"
+    p["o"]["err"][0] += 1
+    p2 = copy.deepcopy(g)
+    p2["id"] = "probe.pmts"
+    p2["o"]["ts"] = p2["o"]["ts"][1:]
+    rejects = core.validate("pipeline", "Trace_PipelineMetric", traces + [p, p2], workers=8)
+    rej = {x[0] for x in rejects}
+    if "probe.pm" not in rej or "probe.pmts" not in rej:
+        raise core.MachineryError("pipeline P accepted corrupted traces")
+    rep.traces += len(traces)
+    rep.extra["cli_pipeline_cases"] = len(traces)
+    for n, c in enumerate(cases):
+        rep.nontriv(["pipeline", c["q"], c["fmt"], c["tool"], len(c["est"]["poses"])])
+    for tid, clause, _ in rejects:
+        if tid.startswith("probe"):
+            continue
+        n = int(tid[2:])
+        c = cases[n]
+        rep.violation({"clause": clause, "fam": "cli-pipeline", "tool": tool, "mode": c["q"]["mode"], "nalign": c["q"]["nalign"], "down": c["q"]["down"],
+                       "plane": c["q"]["plane"]},
+                      {"options": c["q"], "fmt": c["fmt"], "argv": obs[n].get("argv"), "observed": {k: v for k, v in obs[n].items() if k != "argv"}})
+    rep.sample({"cli": traces[0]["c"]["q"], "observed": traces[0]["o"]})
